@@ -3,6 +3,7 @@ import asyncio
 import gc
 import logging
 import random
+import sys
 import warnings
 
 import kopf
@@ -25,6 +26,8 @@ def quiet():
     if not _quiet:
         logging.disable(logging.CRITICAL)
         warnings.simplefilter('ignore')
+        # Coroutines of killed processes are destroyed, never resumed: their finalisation noise is not an observation.
+        sys.unraisablehook = lambda *a, **kw: None
         _quiet = True
 
 
